@@ -134,6 +134,9 @@ class Tracer:
                 if hasattr(h, attr):
                     v = getattr(h, attr)
                     d[key] = f2b(v) if isinstance(v, float) else v
+            et = getattr(h, "_event_time", None)
+            if et is not None and hasattr(et, "quotient"):
+                d["initial_event_time"] = [f2b(et.quotient), f2b(et.remainder)]
             meta["handlers"].append(d)
         for s in act._internal_states:
             d = {"class": type(s).__name__}
